@@ -57,6 +57,9 @@ class Opaque:
         self.tag = tag
         self.deps = tuple(deps)
         self.uid = next(Opaque._n)
+        self.tags = set()             # provenance tags (taint)
+        for d in self.deps:
+            self.tags |= deps_of(d)
 
     def __repr__(self):
         return f'<opaque {self.tag}#{self.uid}>'
@@ -83,6 +86,7 @@ class Store:
         self.origin = origin          # 'fresh@<line>', 'param:<name>', ...
         self.val = val                # point-wise symbolic value (z3 Real) or None
         self.version = 0
+        self.deps = set()             # provenance tags this content was computed from (taint)
 
     def __repr__(self):
         return f'<store#{self.uid} {self.origin} v{self.version}>'
@@ -160,6 +164,51 @@ class ClassRef:
 
 def is_sym(v):
     return z3.is_expr(v)
+
+
+def deps_of(v, _seen=None):
+    """provenance tags a value was computed from"""
+    if isinstance(v, NDArr):
+        return set(v.store.deps)
+    if isinstance(v, Opaque):
+        return set(v.tags)
+    if isinstance(v, (list, tuple, set)):
+        out = set()
+        for x in v:
+            out |= deps_of(x, _seen)
+        return out
+    if isinstance(v, dict):
+        out = set()
+        for x in v.values():
+            out |= deps_of(x, _seen)
+        return out
+    if isinstance(v, Obj):
+        _seen = _seen if _seen is not None else set()
+        if v.uid in _seen:
+            return set()
+        _seen.add(v.uid)
+        out = set(v.fields.get('__tags__', ()))
+        for k, x in v.fields.items():
+            if isinstance(x, (NDArr, Opaque)) or (isinstance(x, Obj) and k in ('_field',)):
+                out |= deps_of(x, _seen)
+        return out
+    return set()
+
+
+def taint(result, sources):
+    t = set()
+    for s_ in sources:
+        t |= deps_of(s_)
+    if not t:
+        return result
+    if isinstance(result, NDArr):
+        result.store.deps |= t
+    elif isinstance(result, Opaque):
+        result.tags |= t
+    elif isinstance(result, (list, tuple)):
+        for x in result:
+            taint(x, sources)
+    return result
 
 
 def R(x):
@@ -376,11 +425,21 @@ class Interp:
     def ev_Name(self, n, env):
         return self.lookup(n.id, env)
 
+    def seq_elts(self, n, env):
+        out = []
+        for e in n.elts:
+            if isinstance(e, ast.Starred):
+                v = self.ev(e.value, env)
+                out.extend(self.iterate(v) if not isinstance(v, Opaque) else [Opaque('starred')])
+            else:
+                out.append(self.ev(e, env))
+        return out
+
     def ev_Tuple(self, n, env):
-        return tuple(self.ev(e, env) for e in n.elts)
+        return tuple(self.seq_elts(n, env))
 
     def ev_List(self, n, env):
-        return [self.ev(e, env) for e in n.elts]
+        return self.seq_elts(n, env)
 
     def ev_Set(self, n, env):
         return set(self.ev(e, env) for e in n.elts)
@@ -509,7 +568,7 @@ class Interp:
         vb = b.store.val if isinstance(b, NDArr) else b
         val = self.pointwise(opname, va, vb)
         cls_ = DArr if isinstance(a, DArr) or isinstance(b, DArr) else NDArr
-        return cls_(Store(f'fresh@{getattr(node, "lineno", 0)}', val))
+        return taint(cls_(Store(f'fresh@{getattr(node, "lineno", 0)}', val)), [a, b])
 
     def pointwise(self, opname, va, vb):
         if opname == 'neg':
@@ -661,6 +720,8 @@ class Interp:
         if isinstance(v, Obj):
             if attr in v.fields:
                 return v.fields[attr]
+            if attr == '__class__':
+                return Obj('type', {'__name__': v.cls})
             hook = self.ctx.opts.get('getattr_hook')
             if hook is not None:
                 r = hook(self, v, attr)
@@ -732,6 +793,8 @@ class Interp:
             raise Unsupported('attribute of function')
         if is_sym(v):
             return LibFn('number.' + attr, bound=v)
+        if v is None:
+            raise _Raise(ExcVal('AttributeError', (f"'NoneType' object has no attribute '{attr}'",)))
         raise Unsupported(f'attribute {attr} of {type(v).__name__}')
 
     def find_method(self, obj, name):
@@ -897,6 +960,10 @@ class Interp:
             return list(v)
         if isinstance(v, Obj) and '__iter__' in v.fields:
             return list(v.fields['__iter__'])
+        if isinstance(v, NDArr):
+            # rows of an array of unknown length: one representative row (provenance / aliasing only)
+            self.ctx.event('iterate-array', store=v.store)
+            return [NDArr(v.store, view=('row', v.view), dtype=v.dtype)]
         raise Unsupported(f'iteration over {v!r} (line {getattr(node, "lineno", "?")})')
 
     # ------------------------------------------------ calls
@@ -987,7 +1054,7 @@ class Interp:
             elif p in kw:
                 env[p] = kw.pop(p)
             elif defaults[i] is not None:
-                env[p] = it.ev(defaults[i], {})
+                env[p] = it.ev(defaults[i], dict(clo.env))
             else:
                 raise _Raise(ExcVal('TypeError', (f'missing argument {p}',)))
         if len(allargs) > len(params):
@@ -1069,10 +1136,14 @@ class Interp:
                 name = b + name[len(a):]
         f = LibFn(name, f.bound)
         h = self.ctx.opts.get('prelude', {}).get(name) or prelude.TABLE.get(name)
+        srcs = list(args) + list(kwargs.values()) + ([f.bound] if f.bound is not None else [])
         if h is not None:
-            return h(self, f, args, kwargs, node)
+            r = h(self, f, args, kwargs, node)
+            if isinstance(r, NDArr) and any(isinstance(a_, NDArr) and a_.store is r.store for a_ in srcs):
+                return r            # a view of / the argument itself
+            return taint(r, srcs) if isinstance(r, (NDArr, Opaque)) else r
         self.ctx.event('libcall', name=name, args=args, kwargs=kwargs, line=getattr(node, 'lineno', 0))
-        return Opaque(name + '()')
+        return taint(Opaque(name + '()'), srcs)
 
     # ------------------------------------------------ statements
     def exec_block(self, stmts, env):
@@ -1098,7 +1169,12 @@ class Interp:
 
     def st_ImportFrom(self, s, env):
         for a in s.names:
-            env[a.asname or a.name] = LibFn(f'{s.module}.{a.name}')
+            if s.module == 'emg3d':
+                env[a.asname or a.name] = ModRef('emg3d.' + a.name)
+            elif s.module and s.module.startswith('emg3d.'):
+                env[a.asname or a.name] = ('repo', s.module.split('.', 1)[1].replace('.', '/'), a.name)
+            else:
+                env[a.asname or a.name] = LibFn(f'{s.module}.{a.name}')
 
     def st_FunctionDef(self, s, env):
         env[s.name] = Closure(s, env, self, qualname=None)
@@ -1248,6 +1324,7 @@ class Interp:
             vb = rhs.store.val if isinstance(rhs, NDArr) else rhs
             cur.store.val = self.pointwise(type(s.op).__name__, cur.store.val, vb)
             cur.store.version += 1
+            cur.store.deps |= deps_of(rhs)
             self.ctx.event('mutate', store=cur.store, line=s.lineno, how=f'{type(s.op).__name__}=',
                            target=ast.unparse(s.target), arr=cur, value=rhs)
             return
@@ -1314,6 +1391,10 @@ class Interp:
             else:
                 o.store.val = None
             o.store.version += 1
+            if whole:
+                o.store.deps = set(deps_of(v))
+            else:
+                o.store.deps |= deps_of(v)
             self.ctx.event('mutate', store=o.store, line=getattr(node, 'lineno', 0), how='setitem', key=k, value=v,
                            target='', arr=o)
             return
